@@ -271,10 +271,12 @@ def gen_ids(seed, opts=None):
     opts.setdefault('errors', True)
     opts.setdefault('max_count', 6)
     plan = gen_core(seed, opts)
+    shared_max = _pick(rng, [(2, 7), (3, 15), (3, 31), (2, 63)])  # register_stream() checks peer ids against the own maximum
+    r0 = rng.random()
     for ep in ('client', 'server'):
-        r = rng.random()
+        r = r0 if r0 < 0.75 else rng.random() * 0.25 + 0.75
         if r < 0.75:
-            plan[ep]['max_sid'] = _pick(rng, [(2, 7), (3, 15), (3, 31), (2, 63)])
+            plan[ep]['max_sid'] = shared_max
         elif r < 0.95:
             start = 0x7FFFFFFF - 2 * rng.randint(0, 6)  # odd: the client's cursor
             plan[ep]['sid_start'] = start if ep == 'client' else start - 1
